@@ -33,7 +33,7 @@ CLAIMED = {
               "'cursor untouched when false' summaries, memoised character predicates, retro-confirmed ++ under has_more, "
               "tracked mode flags, 2-induction for flag-flipping iterations, and 'returned true => consumed >= 1' summaries "
               "taken as the greatest fixpoint; supporting obligations: every keyword/symbol/operator string is non-empty, "
-              "Symbol_/Keyword_ consume exactly their symbol's length; recursion is bounded by (2). Not decided: that the "
+              "Symbol_/Keyword_ consume exactly their symbol's length; recursion is bounded by (2). (7) tree depth: no parser loop wraps the node built so far into a new parent per iteration without counting the iteration against the depth limit - fails for the operator-chain loop and the postfix-chain loop on the current tree (two listed known findings with a replay: 400000 links overflow the native stack in the optimizer's recursive passes inside parse()). Not decided: that the "
               "tree accounts for each byte beyond (1)."),
         technique="must-pass-through + recursion-cycle analysis + abstract interpretation (cursor lower-bound domain; loop-progress mode with greatest-fixpoint summaries and 2-induction) + interprocedural exception flow",
         ref="DESIGN.md section 4 C01"),
@@ -47,7 +47,7 @@ CLAIMED = {
               "scopes were checked for the name. the function lookup is reached only with the miss of the global-object search for this name established on the path (else the global, else the function). Two obligations fail on the current tree and are listed as known findings "
               "with replays (a node cached as 'not a local' ignores a local introduced later by eval(); a remembered outer "
               "slot wins over an inner variable of the same name introduced later) - both are the same design limit of the "
-              "per-node cache. Not decided: full equivalence with caching disabled on generated programs."),
+              "per-node cache. While those two obligations fail, text handed to eval()/eval_file()/use() must be evaluated on nodes parsed in that very call (no stored syntax tree is re-evaluated): decided for every tree evaluation in ChaiScript_Basic. Not decided: full equivalence with caching disabled on generated programs."),
         technique="control/data-dependence rules on the structured tree, bounds-dominance, dominance of the scope scan",
         ref="DESIGN.md section 4 C04"),
     "C06": dict(
@@ -133,8 +133,8 @@ CLAIMED = {
               "literal type on all well-formed (suffix, base, magnitude-class) cases for each of the four (base, prefixed) argument "
               "pairs with which Num() actually calls it (decimal, octal, hex, binary); float suffixes select float/long "
               "double/double; Num() maps 0x/0b/leading 0 to bases 16/2/8; (5) \\u/\\U escapes are encoded with the UTF-8 table "
-              "(thresholds, lead bytes, shifts, masks and byte counts extracted per range arm). (6) the octal and hex digit classes of the escape decoder are exact: the class predicates are evaluated over all 256 character values and compared with [0-7] and [0-9a-fA-F]. Not decided: float accuracy in "
-              "ulps, the digit arithmetic of std::stoll/parse_num."),
+              "(thresholds, lead bytes, shifts, masks and byte counts extracted per range arm). (6) the octal and hex digit classes of the escape decoder are exact: the class predicates are evaluated over all 256 character values and compared with [0-7] and [0-9a-fA-F]. (7) parse_num<T> for floating T: every per-digit accumulator is a floating type at least as wide as T, factor ten on both sides of the point, exponent applied as a power of ten. Not decided: float accuracy in "
+              "ulps, the digit arithmetic of std::stoll."),
         technique="hash-use inventory + guard rule, table extraction, typestate by abstract interpretation, symbolic evaluation of the typing ladder on all abstract cases",
         ref="DESIGN.md section 4 C16"),
     "C18": dict(
@@ -177,7 +177,7 @@ CLAIMED = {
               "shared parser object parses with a fresh local parser; no Boxed_Value with static storage duration is shared "
               "mutable state - three objects (the true/false/void singletons) fail this and are listed known findings "
               "with a ThreadSanitizer replay. use()'s "
-              "exactly-once clause is decided in C19 R19.3. Not decided: per-thread results equal single-threaded runs; "
+              "exactly-once clause is decided in C19 R19.3. Every lock object on an engine mutex is constructed in the blocking form (no try_to_lock/defer_lock/adopt_lock, no try_lock/owns_lock): a reader that could not get the lock has only stale per-thread data to fall back on, and the lock-held reasoning above presupposes it. Not decided: per-thread results equal single-threaded runs; "
               "registration visibility timing; races the script itself creates on shared global values."),
         technique="lock-set analysis with requirement propagation over the resolved call graph; guarded-by table; mutable/field inventory",
         ref="DESIGN.md section 4 C13"),
@@ -207,7 +207,7 @@ CLAIMED = {
               "evaluation whose element values all pass through clone_if_necessary; `var x = e` and first assignment clone; "
               "no Constant node holds a value whose type contains Boxed_Value handles (constness of a boxed container is "
               "shallow, its elements would be shared by every evaluation). "
-              "The constants' origin rule (C07 R7.8, including the arithmetic kernel through which the optimizer folds literals: fresh results only as const_var, never mutable or marked as a temporary a declaration may adopt) is re-decided and reported here as R8.5. Not decided: equality of results of repeated calls on generated functions (follows from the above plus C07)."),
+              "The constants' origin rule (C07 R7.8, including the arithmetic kernel through which the optimizer folds literals: fresh results only as const_var, never mutable or marked as a temporary a declaration may adopt) is re-decided and reported here as R8.5. Every in-place write of the evaluator is preceded by the const test on its target (C07 R7.4 re-decided and reported here as R8.6). Not decided: equality of results of repeated calls on generated functions (follows from the above plus C07)."),
         technique="class-hierarchy-wide const/mutable inventory, who-may-write rule over resolved accesses, def-use checks",
         ref="DESIGN.md section 4 C08"),
     "C10": dict(
@@ -291,7 +291,7 @@ CLAIMED = {
               "finding with replay; (4) every call node that opens a call frame "
               "saves its evaluated arguments before dispatch (two documented exemptions); (5) Object_Data::get: owning forms "
               "store a shared_ptr and are not references, non-owning forms are marked as references, the cached pointer "
-              "comes from the stored object. (6) the releasing side: every scope/frame opened is closed on every exit (the C09 rules R9.1-R9.3 re-run and reported here: an unclosed scope keeps its locals alive, a double close releases the caller's); (7) top-level statements are evaluated inside a call frame so that saved arguments are not released while the statement consuming a reference result is still running - this obligation fails on the current tree and is a listed known finding with a valgrind replay (`var c = (a + b)[5]` at top level). (8) the evaluator's scope guard attaches pending conversion temporaries to the current saved-argument list before it pushes a new one, so a converted argument lives for its C++ call also when that call runs a script callback; (9) the is-a-temporary mark (which lets a declaration adopt a box without copying) is put only on boxes that own their object - fails for const-reference results of C++ functions on the current tree, listed known finding with replay. Not decided: destruction counts/times on generated programs; references that "
+              "comes from the stored object. (6) the releasing side: every scope/frame opened is closed on every exit (the C09 rules R9.1-R9.3 re-run and reported here: an unclosed scope keeps its locals alive, a double close releases the caller's); (7) top-level statements are evaluated inside a call frame so that saved arguments are not released while the statement consuming a reference result is still running - this obligation fails on the current tree and is a listed known finding with a valgrind replay (`var c = (a + b)[5]` at top level). (8) the evaluator's scope guard attaches pending conversion temporaries to the current saved-argument list before it pushes a new one, so a converted argument lives for its C++ call also when that call runs a script callback; (9) the is-a-temporary mark (which lets a declaration adopt a box without copying) is put only on boxes that own their object - fails for const-reference results of C++ functions on the current tree, listed known finding with replay. (10) pending conversion temporaries are dropped only by take_saves (result put on a saved-argument list) or by the guard that enabled the saves itself. Not decided: destruction counts/times on generated programs; references that "
               "host-registered C++ functions return into host-owned objects; the range()/front() route of ranged-for."),
         technique="referent classification of non-owning boxes (intraprocedural + one call level), ownership rules, sibling agreement, must-precede and guard rules, overload table check",
         ref="DESIGN.md section 4 C11"),
@@ -322,7 +322,7 @@ CLAIMED = {
               "(:=, &) is assigned, stepped, mutated through a member or handed to back_inserter/bind(push_back) outside the "
               "six functions whose contract is to mutate; no numeric parameter is compared with an unsigned size() (a negative "
               "count would wrap); on the C++ side Bidir_Range::pop_front/pop_back move only the "
-              "view's iterators. Callback argument roles: every application of a callback parameter, direct or through another prelude function it is handed to, passes (element of input k / accumulator / result of another callback) in the same positions, compared with a reference table (foldl f(elem, acc); reduce f(acc, elem); zip_with f(x_i, y_i)). Not decided: results (counts, order of combination), behaviour of the C++ functions called."),
+              "view's iterators. Callback argument roles: every application of a callback parameter, direct or through another prelude function it is handed to, passes (element of input k / accumulator / result of another callback) in the same positions, compared with a reference table (foldl f(elem, acc); reduce f(acc, elem); zip_with f(x_i, y_i)). No function returns one of its parameters, `this`, or an alias of one (min/max select an argument by contract). Not decided: results (counts, order of combination), behaviour of the C++ functions called."),
         technique="script-level lint: independent subset parser + abstract interpretation (element lower bounds, per-iteration counters) + alias-aware who-may-mutate rule; one supporting rule over the C++ view class",
         ref="DESIGN.md section 4 C17 and 8.5"),
 }
